@@ -31,7 +31,7 @@ def kv (s : String) (k : String) : Option Int :=
 
 /-- `e2edelay cmd delayMs injPct rep=R|exit=µs;inj=µs`: the process did not exit before
     (last probe) + delay (2 ms tolerance for comparing a user-level clock reading with a kernel stamp), and
-    a reply injected at least 60 ms before the end of the delay is printed exactly once -/
+    a reply injected at least 120 ms before the end of the delay is printed exactly once -/
 def handleE2EDelay : List String → Option String
   | [_cmd, delayMs, _pct, obsAll] => do
     let d ← parseInt? delayMs
@@ -41,11 +41,11 @@ def handleE2EDelay : List String → Option String
       let v := match kv raw "exit", kv raw "inj" with
         | some ex, some inj =>
           decide (ex ≥ d * 1000 - 2000) &&
-          (if inj ≥ 0 ∧ inj ≤ d * 1000 - 60000 then rep == 1 else (rep == 0 || rep == 1))
+          (if inj ≥ 0 ∧ inj ≤ d * 1000 - 120000 then rep == 1 else (rep == 0 || rep == 1))
         | _, _ => false
       -- canonical part of the model: the expected report count when the injection is well inside the delay
       let m := match kv raw "inj" with
-        | some inj => if inj ≥ 0 ∧ inj ≤ d * 1000 - 60000 then "rep=1" else canon
+        | some inj => if inj ≥ 0 ∧ inj ≤ d * 1000 - 120000 then "rep=1" else canon
         | none => canon
       pure s!"{m}|{raw}\t{b2s v}"
     | _ => none
